@@ -31,6 +31,9 @@ structure LayerSynced (ln : String) (dl : DLayer) (l : MLayer) : Prop where
   sched : ∀ gn st, AL.get? l.sched gn = some st → ∃ f st', AL.get? dl.glifs gn = some f ∧ st = some st' ∧ f.blob = st'.blob
   /-- the bound glyph set reads this directory, is open, and lists what is on disk -/
   gs : ∃ g, l.gs = some g ∧ g.lname = ln ∧ g.alive = true ∧ ∀ gn, gn ∈ g.contents ↔ gn ∈ AL.keys dl.glifs
+  /-- well-formedness of `_glyphs`: a dictionary, whose names are among the keys -/
+  loaded : ∀ gn g, (gn, g) ∈ l.glyphs → gn ∈ l.keys
+  nodupGlyphs : (AL.keys l.glyphs).Nodup
 
 /-- the image / data set in memory against the directory on disk -/
 structure FSSynced (files : List (String × File)) (fs : FileSet) : Prop where
@@ -47,6 +50,7 @@ structure FSSynced (files : List (String × File)) (fs : FileSet) : Prop where
   schedDigest : ∀ n e f, AL.get? fs.sched n = some e → AL.get? files n = some f → e.digest = some f.blob
   schedUnloaded : ∀ n e, AL.get? fs.sched n = some e → e.data = none → e.onDisk = true
   nodupSched : (AL.keys fs.sched).Nodup
+  nodupEntries : (AL.keys fs.entries).Nodup
 
 /-- the bytes of every file a reader is kept open for (glyph directories, images, data; the
 top-level files are always read through a fresh reader), the modification times forgotten -/
@@ -79,14 +83,15 @@ def quietReport (s : State) : Report :=
 
 /-- operations that change no byte on disk and create / delete / reorder nothing in memory:
 lazy reads, edits of values, deletions of glyphs, images and data, touch-only external edits,
-tests, reloads of top-level objects.  (Not: creating glyphs or layers, deleting or reordering
-layers, changing the default layer — finding F8 — and saves, which are covered by the
-correspondence runs only.) -/
+tests, reloads of top-level objects, and save-as to a new path (after which the new UFO is the UFO).
+(Not: creating glyphs or layers, deleting or reordering layers, changing the default layer —
+finding F8 — and in-place saves, which are covered by the correspondence runs only.) -/
 def Quiet : Op → Prop
   | .touch _ | .pset _ _ | .gget _ _ | .gset _ _ _ | .gdel _ _ | .lset _ _ => True
   | .fget _ _ | .fset _ _ _ => True
   | .xpart _ .touch _ | .xglyph _ _ .touch _ | .xfile _ _ .touch _ => True
   | .test | .reloadpart _ => True
+  | .saveas _ _ => True
   | _ => False
 
 end Ext
